@@ -161,9 +161,11 @@ def run_one(tape, cfg):
 
     e2 = {"runs": 0, "parallel": 0}
 
-    def compute_threads(x):
+    def compute_threads(x, nclients=1):
         """E2: block tasks on baton-passed worker threads, pre-empted at lines of
-        dask/array/random.py (state shared between concurrently running blocks shows here)."""
+        dask/array/random.py (state shared between concurrently running blocks shows here).
+        nclients > 1: several callers compute the same collection at overlapping times; the list of
+        their results is returned."""
         import dask.threaded
         from sim.simthreads import SimThreadPool, SimThreads
 
@@ -177,14 +179,15 @@ def run_one(tape, cfg):
                 def simget(dsk, keys, **kw):
                     return dask.threaded.get(dsk, keys, pool=pool, **kw)
 
-                def client():
-                    box["v"] = dask.compute(*x, scheduler=simget) if isinstance(x, tuple) \
+                def client(i=0):
+                    box[i] = dask.compute(*x, scheduler=simget) if isinstance(x, tuple) \
                         else x.compute(scheduler=simget)
 
-                st = sched.spawn(client, "client")
+                sts = [sched.spawn(lambda i=i: client(i), f"client{i}") for i in range(nclients)]
                 res = sched.run()
-                if st.exc is not None:
-                    raise st.exc
+                for st in sts:
+                    if st.exc is not None:
+                        raise st.exc
                 if res != "ok":
                     raise RuntimeError(f"simulated threads: {res} {sched.deadlock}")
         finally:
@@ -192,7 +195,7 @@ def run_one(tape, cfg):
         digests.append(sched.digest())
         e2["runs"] += 1
         e2["parallel"] += sched.probes.get("parallel_items", 0)
-        return box["v"]
+        return box[0] if nclients == 1 else [box[i] for i in range(nclients)]
 
     def compute(x, run=None):
         if run is None and tape.draw(4, "engine") == 3:
@@ -311,8 +314,16 @@ def run_one(tape, cfg):
             v2 = compute(c)
             flat = list(np.asarray(v).ravel())
             pop = set(population.tolist()) if as_array else set(range(pop_n))
+            both = None
+            if tape.chance(1, 3, "two_clients"):
+                # two callers compute the same choice array at overlapping times
+                out.probe("choice_two_clients")
+                both = compute_threads(c, nclients=2)
             if not same(np.asarray(v), np.asarray(v2)):
                 out.violate("seeded_values_differ", f"{wl}: choice recomputation differs")
+            elif both is not None and not all(same(np.asarray(v), np.asarray(b)) for b in both):
+                out.violate("seeded_values_differ", f"{wl}: two callers computing the same choice array at "
+                                                    f"overlapping times got other values than a caller alone")
             elif tuple(np.asarray(v).shape) != tuple(k_shape):
                 out.violate("choice_shape", f"{wl}: shape {np.asarray(v).shape}")
             elif any(x not in pop for x in flat):
